@@ -22,7 +22,7 @@ RULE_TEXT = ("In-process server stack (SQLite or memory store), idle_timeout in 
              "one run; no step body keeps executing after its control loop exited. DBOS half (a quarter of the runs, on the emulated "
              "dbos package): TWO replicas (own DBOS instance, runtime, service, lifecycle-lock object) on one database; the lifecycle "
              "row is created by the harness; lifecycle calls take 0/1/4 ms round trips per run and (stall arm) one chosen call is held "
-             "up 1/130/200 s on its request or response side (CRASH_TIMEOUT is 120 s); 1-3 senders through either replica around the "
+             "up 1/130/200 s on its request or response side, or - complete_release only - beyond the observation window (CRASH_TIMEOUT is 120 s); 1-3 senders through either replica around the "
              "release instant and around the crash timeout, then late answers and a final Fin. Oracle there: every event sent is "
              "processed (tick reduced, folded into a resume, or consumed by a wait) before the Fin-made end, the system becomes quiet "
              "within 3000 s of the last send; at every TickIdleRelease the run has no executing body, unprocessed result or message "
@@ -315,7 +315,11 @@ async def scenario_dbos(world, spec):
     if tape.chance(40, 100, "lc.stall?"):
         stall = {"op": tape.choice(["complete_release", "complete_release", "complete_release", "begin_release", "try_begin_resume"], "lc.stall.op"),
                  "replica": tape.choice(["A", "A", "A", "B"], "lc.stall.rep"), "n": tape.choice([1, 1, 2], "lc.stall.n"),
-                 "side": tape.choice(["request", "request", "response"], "lc.stall.side"), "secs": float(tape.choice([1, 130, 200], "lc.stall.secs"))}
+                 "side": tape.choice(["request", "request", "response"], "lc.stall.side"), "secs": float(tape.choice([1, 130, 200, 5000], "lc.stall.secs"))}
+        if stall["secs"] > 1000 and not (stall["op"] == "complete_release" and stall["side"] == "request"):
+            # a releaser that is as good as dead (longer than the observation window) is only meaningful once the old execution has
+            # ended and nothing but the 'released' mark is missing: the case the crash timeout exists for
+            stall["secs"] = 200.0
     reps = {}
     for name, ex in (("A", "exec-1"), ("B", "exec-2")):
         inc = world.new_incarnation(ex, server_chain=True)
@@ -416,7 +420,7 @@ def check_dbos(world, spec, outcome) -> None:
     ended_at = None
     end_kind = None
     stalled = outcome.get("stall")
-    stall_attr = f"{stalled['op']}/{stalled['side']}/{'long' if stalled['secs'] > 120 else 'short'}" if stalled and any(k == "lc-stall" for _, _, k, _ in recs) else None
+    stall_attr = f"{stalled['op']}/{stalled['side']}/{'dead' if stalled['secs'] > 1000 else ('long' if stalled['secs'] > 120 else 'short')}" if stalled and any(k == "lc-stall" for _, _, k, _ in recs) else None
     attrs = {"backend": "dbos", "lifecycle_stall": stall_attr, "lifecycle_latency": bool(outcome.get("lat"))}
     for seq, t, kind, f in recs:
         if kind == "lc":
